@@ -2,7 +2,8 @@
 # Re-verifies every seeded change listed in seeded/index.tsv against /repo HEAD and the listed checks, and
 # (re)writes seeded/<id>/{patch.diff,demo_test.go,notes.md,run.json,meta.json}.  Uses the copies already in
 # seeded/<id>/ when the source directory is gone.
-cd /verif
+cd ${VROOT:-/verif}
+export VROOT=${VROOT:-/verif}
 grep -v '^#' seeded/index.tsv | while IFS=$'\t' read -r id prop src L checks; do
   [ -z "$id" ] && continue
   if [ -n "${ONLY:-}" ] && [[ ! "$id" =~ $ONLY ]]; then continue; fi
@@ -14,7 +15,7 @@ grep -v '^#' seeded/index.tsv | while IFS=$'\t' read -r id prop src L checks; do
   python3 - "$id" "$prop" "$checks" <<'PY'
 import json,sys,re
 id,prop,checks=sys.argv[1],sys.argv[2],sys.argv[3].split()
-d='/verif/seeded/'+id
+d=__import__('os').environ.get('VROOT','/verif')+'/seeded/'+id
 run=json.load(open(d+'/run.json'))
 notes=open(d+'/notes.md').read() if __import__('os').path.exists(d+'/notes.md') else ''
 caught=[c['check'] for c in run['checks'] if c['exit']==1]
